@@ -68,7 +68,7 @@ Lemma Forall_dupd {A} (P : list A -> Prop) (d : dict (list A)) k upd fresh :
   Forall (fun kv => P (snd kv)) d -> P fresh -> (forall old, P old -> P (upd old)) -> Forall (fun kv => P (snd kv)) (dupd d k upd fresh).
 Proof.
   intros H Hf Hu. induction H as [| [k' v'] d Hx Hd IH]; cbn [dupd]; [repeat constructor; exact Hf |].
-  destruct (Z.eqb k k'); constructor; auto.
+  cbn [snd] in Hx. destruct (Z.eqb k k'); constructor; cbn [snd]; auto.
 Qed.
 Lemma dget_in {V} (d : dict V) k v : NoDup (map fst d) -> In (k, v) d -> dget d k = Some v.
 Proof.
@@ -77,6 +77,11 @@ Proof.
   - inversion E; subst. now rewrite Z.eqb_refl.
   - destruct (Z.eqb_spec k k') as [-> | _]; [| now apply IH]. exfalso. apply Hnin. apply in_map_iff. now exists (k', v).
 Qed.
+
+Lemma members_nil {A} : members (@nil (Z * list A)) = 0.
+Proof. reflexivity. Qed.
+Lemma members_cons {A} k (v : list A) d : members ((k, v) :: d) = length v + members d.
+Proof. reflexivity. Qed.
 
 (* ---- the second loop, for any merge function that behaves as concatenation *)
 Section Loop.
@@ -109,19 +114,18 @@ Section Loop.
   Lemma loop_members : (forall v, length (g v) = length v) ->
     forall s2 d, members (fold_left step s2 d) = members d + members s2.
   Proof.
-    intros Hg. induction s2 as [| [k2 v2] s2 IH]; intros d; cbn [fold_left]; [unfold members at 3; cbn; lia |].
+    intros Hg. induction s2 as [| [k2 v2] s2 IH]; intros d; cbn [fold_left]; [rewrite members_nil; lia |].
     rewrite IH. unfold step. cbn [fst snd]. rewrite (members_dupd d k2 _ _ (length v2)).
-    - unfold members at 4. cbn [map list_sum fold_right snd]. fold (members s2). lia.
+    - rewrite members_cons. lia.
     - apply Hg.
     - intros old. now rewrite mrg_app, app_length, Hg.
   Qed.
 
-  Lemma loop_Forall (P : A -> Prop) : (forall v, Forall P v -> Forall P (g v)) = (forall v, Forall P v -> Forall P (g v)) ->
-    forall (Q : A -> Prop), (forall v, Forall Q v -> Forall P (g v)) ->
+  Lemma loop_Forall (P Q : A -> Prop) : (forall v, Forall Q v -> Forall P (g v)) ->
     forall s2 d, Forall (fun kv => Forall P (snd kv)) d -> Forall (fun kv => Forall Q (snd kv)) s2 ->
     Forall (fun kv => Forall P (snd kv)) (fold_left step s2 d).
   Proof.
-    intros _ Q Hg. induction s2 as [| [k2 v2] s2 IH]; intros d Hd Hs; cbn [fold_left]; [exact Hd |].
+    intros Hg. induction s2 as [| [k2 v2] s2 IH]; intros d Hd Hs; cbn [fold_left]; [exact Hd |].
     inversion Hs as [| ? ? Hv Hs']; subst. cbn [snd] in Hv. apply IH; [| exact Hs'].
     unfold step. cbn [fst snd]. apply Forall_dupd; [exact Hd | now apply Hg |].
     intros old Ho. rewrite mrg_app. apply Forall_app. split; [exact Ho | now apply Hg].
@@ -170,7 +174,7 @@ Lemma combine_dicts_Forall {A} (mrg : list A -> list A -> list A) (g : list A ->
   Forall (fun kv => Forall P (snd kv)) s1 -> Forall (fun kv => Forall Q (snd kv)) s2 ->
   Forall (fun kv => Forall P (snd kv)) (combine_dicts mrg g s1 s2).
 Proof.
-  intros Hm Hn Hg H1 H2. unfold combine_dicts. rewrite (first_loop s1 Hn). now apply (loop_Forall mrg g Hm P eq_refl Q).
+  intros Hm Hn Hg H1 H2. unfold combine_dicts. rewrite (first_loop s1 Hn). now apply (loop_Forall mrg g Hm P Q).
 Qed.
 
 Lemma shift_length off v : length (shift off v) = length v.
